@@ -17,7 +17,7 @@ _BUF = {}
 SCALES = (1.0, 2.0 ** -46, 2.0 ** 20)          # the unit the affinity is expressed in: MMD scales with sqrt(s), W1 with s
 
 
-def check_case(rep, case):
+def check_case(rep, case, closed=False):
     n, k, q = case["n"], case["k"], case["q"]
     P = np.array(case["a"], dtype=float) / q
     x = case["x"]
@@ -26,6 +26,8 @@ def check_case(rep, case):
         expected0 = gem.bag_eval(res["v"])
         A0 = gem.affinity(res["name"], res["aff"], x)
         tol = gem.tol_value(res)
+        if closed:       # the library clips predictions at epsilon = 1e-12 (1e-6 after the square root of Hellinger)
+            tol = 2e-5 if res["name"].startswith("hellinger") else max(tol, 1e-8)
         scales = SCALES if A0 is not None else (1.0,)
         for label, g in gem.code_instances(res["name"]):
             for how in ("call", "evaluate"):
@@ -34,6 +36,10 @@ def check_case(rep, case):
                 expected = expected0 * factor
                 A = None if A0 is None else A0 * sc
                 try:
+                    if how == "evaluate":
+                        # single-precision predictions first, on the same object: they may be less accurate, they must not
+                        # leave anything behind that changes the double-precision answer asked next
+                        g.evaluate(P.astype(np.float32), None if A is None else A.copy())
                     if how == "call":
                         # the same GEMINI object and the same affinity BUFFER are reused across cases (contents overwritten in
                         # place): a result must depend on the values passed, not on the identity of the objects
@@ -71,6 +77,12 @@ def run(tier):
         rep.add_tlc("Gemini", r, note=f"shape={shape} chunks={nch}")
         for case in r.prints:
             check_case(rep, case)
+    # the boundary of the simplex (exact zeros, one-hot rows, empty clusters): values still follow the definitions
+    for shape, frac in ([((2, 2, 4), 1.0), ((2, 3, 3), 1.0)] if tier == "quick" else [((2, 2, 4), 1.0), ((2, 3, 3), 1.0), ((3, 2, 2), 1.0), ((3, 3, 3), 0.25)]):
+        r, nch = gem.enumerate_cases(shape, grad=False, closed=True, frac=frac)
+        rep.add_tlc("Gemini", r, note=f"CLOSED shape={shape} chunks={nch}")
+        for case in r.prints:
+            check_case(rep, case, closed=True)
         if r.prints:
             c = r.prints[len(r.prints) // 2]
             rep.sample({"shape": list(shape), "a": c["a"], "x": c["x"],
